@@ -10,7 +10,7 @@ from ..engines.seqsim import World, Violation, ABSENT
 ID = "C18"
 ENGINE = "seqsim"
 LEVEL = "exploration"
-RUNS = {"quick": 24000, "thorough": 300000}
+RUNS = {"quick": 60000, "thorough": 300000}
 CHUNK = 250
 RULE = ("two run kinds. (A) family walk: seeded traces (all classes, 1-2 objects, nested handles, outside-writer "
         "rewrites that change a value's kind) after EVERY step a non-perturbing walk of each object's tree checks "
